@@ -19,6 +19,7 @@ import (
 	"net/http"
 	"strconv"
 	"sync"
+	"sync/atomic"
 	"time"
 
 	"github.com/puzpuzpuz/xsync/v4"
@@ -49,6 +50,11 @@ type RateLimitValidator struct {
 }
 
 type ipLimiterInfo struct {
+	// holders counts the requests that are between looking this limiter up and having taken (or
+	// been refused) their token. The idle sweep leaves a limiter alone while it is held: evicting
+	// it under a request would let that request draw on the stale bucket while the client's next
+	// request is handed a new, full one.
+	holders      atomic.Int32
 	lastAccess   time.Time
 	windowStart  time.Time
 	limiter      *rate.Limiter
@@ -144,7 +150,8 @@ func (rl *RateLimitValidator) checkIPLimit(clientIP string, limit int, now time.
 		bucketKey = clientIP + ":health"
 	}
 
-	limiterInfo := rl.getOrCreateLimiter(bucketKey, limit)
+	limiterInfo := rl.acquireLimiter(bucketKey, limit)
+	defer limiterInfo.holders.Add(-1)
 	limiterInfo.mu.Lock()
 	limiterInfo.lastAccess = now
 
@@ -207,16 +214,25 @@ func (rl *RateLimitValidator) calculateRemaining(limiterInfo *ipLimiterInfo, lim
 	return remaining
 }
 
-func (rl *RateLimitValidator) getOrCreateLimiter(key string, limit int) *ipLimiterInfo {
-	limiterInfo, _ := rl.ipLimiters.LoadOrCompute(key, func() (newValue *ipLimiterInfo, cancel bool) {
+// acquireLimiter returns the limiter of a bucket, creating it on first contact, and registers the
+// caller as a holder under the map's per-key lock (the same lock the idle sweep evicts under).
+// The caller releases it with holders.Add(-1) when it is done.
+func (rl *RateLimitValidator) acquireLimiter(key string, limit int) *ipLimiterInfo {
+	limiterInfo, _ := rl.ipLimiters.Compute(key, func(existing *ipLimiterInfo, loaded bool) (*ipLimiterInfo, xsync.ComputeOp) {
+		if loaded {
+			existing.holders.Add(1)
+			return existing, xsync.CancelOp
+		}
 		now := time.Now()
-		return &ipLimiterInfo{
+		created := &ipLimiterInfo{
 			limiter:      rate.NewLimiter(rate.Limit(float64(limit)/60.0), rl.burstSize),
 			tokensUsed:   0,
 			lastAccess:   now,
 			windowStart:  now,
 			requestLimit: limit,
-		}, false
+		}
+		created.holders.Add(1)
+		return created, xsync.UpdateOp
 	})
 	return limiterInfo
 }
@@ -255,7 +271,20 @@ func (rl *RateLimitValidator) cleanupOldLimiters() {
 		}
 
 		if lastAccess.Before(now.Add(-idleLimit)) {
-			rl.ipLimiters.Delete(key)
+			// evicted under the per-key lock, and only if no request has taken hold of it or
+			// touched it since it was looked at above
+			rl.ipLimiters.Compute(key, func(current *ipLimiterInfo, loaded bool) (*ipLimiterInfo, xsync.ComputeOp) {
+				if !loaded || current != limiterInfo || current.holders.Load() > 0 {
+					return current, xsync.CancelOp
+				}
+				current.mu.RLock()
+				stillIdle := current.lastAccess.Before(now.Add(-idleLimit))
+				current.mu.RUnlock()
+				if !stillIdle {
+					return current, xsync.CancelOp
+				}
+				return current, xsync.DeleteOp
+			})
 		}
 		return true
 	})
